@@ -158,7 +158,7 @@ class Unit:
         exe = os.path.join(wd, self.key + '.' + entry + '.gen')
         if os.path.exists(exe):
             return exe
-        r = run(['gcc', '-O1', '-w', '-fwrapv', '-fno-strict-aliasing', '-DVERIF_ENTRY_PROTO=void %s(void)' % entry,
+        r = run(['clang-14', '-O1', '-w', '-fwrapv', '-fno-strict-aliasing', '-DVERIF_ENTRY_PROTO=void %s(void)' % entry,
                  '-DVERIF_ENTRY_CALL=%s()' % entry, self.cfile, '-o', exe])
         if r.returncode != 0:
             raise BuildError('native gcc build of generated C failed:\n' + r.stderr[-3000:])
@@ -197,6 +197,34 @@ def _limits(mem_gb):
         resource.setrlimit(resource.RLIMIT_AS, (int(mem_gb * (1 << 30)), int(mem_gb * (1 << 30))))
         os.setsid()
     return f
+
+
+_loops_cache = {}
+
+
+def loop_unwindset(cfile, entry, loop_bounds):
+    """loop_bounds: [(regex on demangled function name, bound)] -> ['loopid:bound', ...] for every loop of matching functions (first match wins)"""
+    if not loop_bounds:
+        return []
+    key = (cfile, entry)
+    if key not in _loops_cache:
+        r = run(['cbmc', cfile, '--function', entry, '--drop-unused-functions', '--show-loops', '--json-ui'])
+        names = []
+        try:
+            for item in json.loads(r.stdout):
+                for l in item.get('loops', []) if isinstance(item, dict) else []:
+                    names.append(l['name'])
+        except Exception:
+            names = re.findall(r'"name": "([^"]+)"', r.stdout)
+        fns = sorted(set(n.rsplit('.', 1)[0] for n in names))
+        dem = ir2c.demangle(fns)
+        _loops_cache[key] = [(n, dem.get(n.rsplit('.', 1)[0], n)) for n in names]
+    out = []
+    for name, d in _loops_cache[key]:
+        for rx, b in loop_bounds:
+            if re.search(rx, d):
+                out.append('%s:%d' % (name, b)); break
+    return out
 
 
 def cbmc_cmd(cfile, entry, unwind, unwindset=(), flags=(), object_bits=10, checks='none'):
